@@ -3,6 +3,7 @@
 #![allow(dead_code, unused_imports, unused_variables, unused_mut, static_mut_refs, non_snake_case)]
 
 pub(crate) mod stubs;
+pub mod modelmap;
 
 mod ent;
 mod mutg;
@@ -20,3 +21,4 @@ mod mutc;
 mod esc_native;
 mod purity;
 mod oracle_native;
+mod memget;
